@@ -18,12 +18,16 @@ def cases(tier):
                        dict(skel=sk, iters=0, which=[], twice=0), weight=3))
         cs.append(Case(f"idem:{sk}:0,1", constrain.h_kernel,
                        dict(skel=sk, iters=0, which=[], twice=1), weight=4))
-    fp_skels = ["cherry", "cat3", "internal_sample"] if tier == "quick" else \
-        ["cherry", "cat3", "internal_sample", "tri", "two_parents", "bal4"]
+    cs.append(Case("fp-max:cherry:eps=sym", constrain.h_kernel_fp,
+                   dict(skel="cherry", which=["max"], eps_value=None, qtimeout_ms=120000),
+                   weight=20))
+    fp_skels = ["cat3", "internal_sample"] if tier == "quick" else \
+        ["cat3", "internal_sample", "tri", "two_parents", "bal4"]
     for sk in fp_skels:
-        cs.append(Case(f"fp-max:{sk}", constrain.h_kernel_fp,
-                       dict(skel=sk, which=["max"], eps_value=None, qtimeout_ms=120000),
-                       weight=20))
+        for ev in ((1e-8,) if tier == "quick" else (1e-8, 1.0)):
+            cs.append(Case(f"fp-max:{sk}:eps={ev}", constrain.h_kernel_fp,
+                           dict(skel=sk, which=["max"], eps_value=ev, qtimeout_ms=120000,
+                                case_timeout_s=900 if tier == "thorough" else 420), weight=20))
     if tier == "thorough":
         from symx import skeletons as SK
         for sk in ["cat3", "bal4", "two_parents", "internal_sample"]:
